@@ -51,8 +51,10 @@ def make_ops(rng, cfg, profile, tier):
                                                     rng.random() < 0.4, rng.random() < 0.5, rng.choice(tchoices)]})
             elif r < 0.65:
                 ops.append({'op': 'ESTIMATE_ALL', 'a': [rng.randrange(1 << 16)]})
-            elif r < 0.75:
+            elif r < 0.72:
                 ops.append({'op': 'QUICK', 'a': [rng.choice(ALGOS), rng.random() < 0.5]})
+            elif r < 0.75:
+                ops.append({'op': 'RECYCLE_FIXED', 'a': [rng.randrange(64), round(rng.uniform(-0.5, 0.5), 2)]})
             elif r < 0.9:
                 ops.append({'op': 'LLD', 'a': [rng.randrange(64), rng.randrange(1 << 16), rng.random() < 0.3, True, True]})
             else:
@@ -74,8 +76,12 @@ def make_ops(rng, cfg, profile, tier):
                                              rng.choice(tchoices)]})
         elif r < 0.79:
             ops.append({'op': 'PER_OBS', 'a': [rng.randrange(1 << 16) % 5]})
-        elif r < 0.82:
+        elif r < 0.81:
             ops.append({'op': 'SPLIT_PARTS', 'a': [rng.randrange(2, 6), rng.randrange(1 << 16) % 5, rng.random() < 0.3]})
+        elif r < 0.815:
+            ops.append({'op': 'EXTRACT_PARTS', 'a': [rng.randrange(2, 5), rng.randrange(1 << 16) % 5]})
+        elif r < 0.82:
+            ops.append({'op': 'ALIAS', 'a': [rng.randrange(64), rng.randrange(1 << 16) % 5, rng.randrange(1 << 16) % 5]})
         elif r < 0.85:
             ops.append({'op': 'SET_THREADS', 'a': [rng.randrange(64), rng.choice(tchoices)]})
         elif r < 0.88:
@@ -325,7 +331,7 @@ class Session:
         kind, a = op['op'], op['a']
         ctx.count('op:' + kind)
         np = self.np
-        if self.cfg.get('panel') and kind in ('PARTS', 'PER_OBS', 'SIM', 'H_NULL', 'SPLIT_PARTS'):
+        if self.cfg.get('panel') and kind in ('PARTS', 'PER_OBS', 'SIM', 'H_NULL', 'SPLIT_PARTS', 'EXTRACT_PARTS'):
             # cross-sectional comparisons: replaced by a plain evaluation on panel data
             kind, a = 'LLD', [a[0] if kind != 'PARTS' else 0, (a[1] if len(a) > 1 else a[0]) % 5, False, True, True]
         if kind == 'MAKE':
@@ -388,6 +394,40 @@ class Session:
             self._memo(('x', xs, 'h'), f'hessian[sum of {P} parts]', tot_h, oracle='I04.parts')
             self._memo(('x', xs, 'b'), f'bhhh[sum of {P} parts]', tot_b, oracle='I04.parts')
             ctx.log(kind, P, fhex(tot_f))
+        elif kind == 'EXTRACT_PARTS':
+            # every P-th row: the parts are taken with Database.extract_rows(range(k, N, P)); they partition the rows
+            import biogeme.database as db
+            P, xs = a
+            P = min(P, self.N)
+            x = self.point(xs)
+            d0 = db.Database('whole', self.table.copy())
+            tot, nrows = 0.0, 0
+            for k_ in range(P):
+                part = d0.extract_rows(range(k_, self.N, P))
+                rec = self.make_object(1, None, table=part.data.reset_index(drop=True))
+                self.objects.pop()
+                tot += float(rec['b'].calculate_likelihood(self.vec(x), scaled=False))
+                nrows += len(part.data)
+            want, _, _ = self.ref_ll(x)
+            if nrows != self.N:
+                ctx.fail('I04.parts', f'the {P} stepped extracts hold {nrows} rows, the sample has {self.N}')
+            self._cmp(f'sum of the log likelihoods of the {P} stepped extracts', tot, want, oracle='I04.parts')
+            ctx.log(kind, P, fhex(tot))
+        elif kind == 'ALIAS':
+            # results returned for one point stay what they were after the object has computed another point
+            rec = self.objects[a[0] % len(self.objects)]
+            b = rec['b']
+            x1, x2 = self.point(a[1]), self.point(a[2] + 5)
+            o1 = b.calculate_likelihood_and_derivatives(self.vec(x1), scaled=False, hessian=True, bhhh=True)
+            keep = [np.array(v, dtype=float, copy=True) for v in (o1.gradient, o1.hessian, o1.bhhh)]
+            f1 = float(o1.function)
+            b.calculate_likelihood_and_derivatives(self.vec(x2), scaled=False, hessian=True, bhhh=True)
+            for nm_, before, after in zip(('gradient', 'Hessian', 'BHHH'), keep, (o1.gradient, o1.hessian, o1.bhhh)):
+                if not np.array_equal(before, np.asarray(after, dtype=float)):
+                    ctx.fail('I04.alias', f'the {nm_} returned for one point changed when the same object computed another point')
+            if float(o1.function) != f1:
+                ctx.fail('I04.alias', 'the value returned for one point changed when the same object computed another point')
+            ctx.log(kind, rec['T'])
         elif kind == 'SPLIT_PARTS':
             # the parts come from the library's own split(): the validation parts partition the rows, so their
             # log likelihoods add up to the log likelihood of the whole sample
@@ -424,6 +464,19 @@ class Session:
             self._memo(('x', a[0], 'g'), 'gradient[sum of weighted per-observation gradients]', g, oracle='I04.agg')
             self._memo(('x', a[0], 'h'), 'hessian[sum of weighted per-observation Hessians]', h, oracle='I04.agg')
             self._memo(('x', a[0], 'b'), 'bhhh[sum of weighted outer products]', bh, oracle='I04.agg')
+            # the same expression on the same Database object after one column was scaled in place
+            import biogeme.database as db
+            ll2, w2, _ = specs.build_formulas(self.cfg)
+            d2 = db.Database('po2', self.table.copy())
+            v_before = ll2.get_value_c(database=d2, betas=self.full(x), aggregation=False, prepare_ids=True)
+            self._cmp('per-observation values before scaling', np.asarray(v_before, dtype=float), rows, oracle='I04.sim')
+            d2.scale_column('x0', 2.0)
+            t2 = self.table.copy()
+            t2['x0'] = t2['x0'] * 2.0
+            rows2 = specs.ref_loglike(self.cfg, t2, self.full(x), per_row=True)
+            v_after = ll2.get_value_c(database=d2, betas=self.full(x), aggregation=False, prepare_ids=True)
+            self._cmp('per-observation values after a column was scaled in place', np.asarray(v_after, dtype=float), rows2,
+                      oracle='I04.sim')
             ctx.log(kind, a[0])
         elif kind == 'NEGLL':
             # the function handed to the optimisers: minus the likelihood, minus its derivatives
@@ -523,6 +576,33 @@ class Session:
             ctx.log(kind, a[0], fhex(r.data.logLike))
         elif kind == 'ESTIMATE_ALL':
             self.estimate_all()
+        elif kind == 'RECYCLE_FIXED':
+            # results saved for a model, then the model is re-specified with one parameter fixed and the saved results
+            # are recycled: the fixed parameter keeps the value it was fixed to
+            if self.cfg['K'] < 2:
+                ctx.log(kind, 'skip')
+            else:
+                rec = self.make_object(1, None)
+                self.objects.pop()
+                b = rec['b']
+                b.modelName = 'recyc'
+                b.biogeme_parameters.set_value('generate_pickle', True)
+                b.biogeme_parameters.set_value('optimization_algorithm', 'simple_bounds')
+                b.estimate()
+                nm_ = self.cfg['names'][a[0] % self.cfg['K']]
+                rec2 = self.make_object(1, None)
+                self.objects.pop()
+                for f_ in rec2['b'].formulas.values():
+                    f_.fix_betas({nm_: a[1]})
+                import biogeme.biogeme as bio
+                b2 = bio.BIOGEME(rec2['b'].database, rec2['b'].formulas, parameters=self._params(1))
+                b2.modelName = 'recyc'
+                r2 = b2.estimate(recycle=True)
+                beta_obj = rec2['betas'][nm_]
+                if beta_obj.initValue != a[1] or beta_obj.status == 0:
+                    ctx.fail('I07.writeback', f'recycled estimation changed the fixed parameter {nm_} from {a[1]!r} to '
+                                              f'{beta_obj.initValue!r} (status {beta_obj.status})')
+                ctx.log(kind, nm_, a[1])
         else:
             raise RuntimeError(f'unknown op {kind}')
         ctx.state([kind, len(self.objects), sorted(map(str, self.settings))[:40], len(self.memo)])
